@@ -56,6 +56,9 @@ func judge(c Case, res result) (v verdict) {
 	if phase == "time" {
 		prefix = fmt.Sprintf("time|ctx=%s|timing=%s|exit=%s", c.Ctx, c.Timing, exitClass(c.Exit))
 	}
+	if isErrThenSleep(c.Timing) {
+		prefix = fmt.Sprintf("time|ctx=%s|timing=%s|stderr=%s", c.Ctx, c.Timing, se.Label)
+	}
 
 	if res.Setup != "" {
 		v.Infra = res.Setup + " (" + tuple + ")"
@@ -138,6 +141,23 @@ func judge(c Case, res result) (v verdict) {
 			}
 		}
 		switch {
+		case isErrThenSleep(c.Timing) && limited && res.Printed:
+			// the plugin had written its stderr completely before the context killed it: a failing process that
+			// printed a structured error yields that error, whatever ended the process
+			switch se.Label {
+			case seStructured:
+				want(res.ErrClass == "request-error" && res.Code == se.Code, "error/structured-error-lost-when-killed-by-context:"+se.Code, "proto.RequestError with code "+se.Code)
+			case seLenient:
+				want((res.ErrClass == "request-error" && res.Code == se.Code) || res.ErrClass == "malformed", "error/structured-error-lost-when-killed-by-context:"+se.Name, "proto.RequestError with the printed code (or a malformed-plugin error)")
+			default:
+				want(typedExec(res.ErrClass), "error/untyped-failure:killed-by-context-stderr-"+se.Name, "PluginExecutableFileError or PluginMalformedError")
+			}
+			if rc == "request-error" {
+				rc = "request-error(plugin's own)"
+			}
+		case isErrThenSleep(c.Timing) && limited:
+			want(typedAny(res.ErrClass), "error/untyped-failure:context-"+c.Ctx, "a typed error")
+			rc = "typed-error (case not realised: killed before the plugin had finished printing, even with the delay doubled 6 times)"
 		case !faithful && !descNoEnd:
 			// cut by a context: the process may not have got as far as scripted; the statement still demands a typed error
 			want(typedAny(res.ErrClass), "error/untyped-failure:context-"+c.Ctx, "a typed error (plugin's own / executable-file / malformed-plugin)")
